@@ -44,7 +44,7 @@ def tripletsLine (NT : Alphabet) (g : Gencode) : String := Id.run do
   if fault then return "fault"
   return s!"ok tr={hexOrDash tr.toList} in={hexOrDash ini.toList}"
 
-def orfStr (o : Orf) : String := s!" orf{o.num}:{o.frame}:{o.start}:{o.stop}:{o.aa.length}:{hx o.aa}"
+def orfStr (o : Orf) : String := s!" {orfName o}:{o.frame}:{o.start}:{o.stop}:{o.aa.length}:{hx o.aa}:{hx (strBytes (orfDesc "seq" "a desc" o))}"
 
 def step (s : Unit) (line : String) : Unit × String :=
   let ws := words line
